@@ -40,7 +40,7 @@ NONVACUITY_QUICK = [("noBackslash", 2, "PathsOK")]
 NONVACUITY_THOROUGH = NONVACUITY_QUICK + [("noTargetCheck", 2, "LinksOK"), ("noReadlinkCheck", 2, "ReadlinkOK"),
                                           ("noDotDot", 2, "InvalidFails"), ("noDot", 2, "InvalidFails"), ("lookupNoValidate", 2, "InvalidFails"),
                                           ("removeNoSanitize", 2, "PathsOK"), ("limit256", 3, "PathsOK"),
-                                          ("targetFirstCompOnly", 2, "LinksOK")]
+                                          ("targetFirstCompOnly", 2, "LinksOK"), ("mntTrimExportPrefix", 3, "PathsOK")]
 
 
 def exhaustive(ctx):
@@ -281,7 +281,9 @@ def run(ctx):
     ctx.cov["trace_stats"] = st
     ctx.cov["trace_stats_note"] = "counters other than req include the %d lines of the corrupted copies appended for the binding demonstration" % len(demo)
     ctx.cov["slots"] = sorted(res["slots"])
-    ctx.cov["vectors"] = {k: summ[k] for k in ("vectors", "exhaustive", "maxlen", "random", "long", "planted", "restores")}
+    ctx.cov["vectors"] = {k: summ[k] for k in ("vectors", "exhaustive", "maxlen", "random", "long", "planted", "restores", "export_mnt")}
+    if summ["export_mnt"] == 0:
+        raise vflib.Broken("no MNT vector was sent under a non-root export name")
     need = {"LOOKUP", "CREATE", "MKDIR", "SYMLINK_NAME", "SYMLINK_TARGET", "MKNOD", "REMOVE", "RMDIR", "RENAME_FROM", "RENAME_TO", "LINK", "MNT", "READLINK"}
     if not need <= set(res["slots"]):
         raise vflib.Broken("the recorded trace does not cover every argument slot: missing %s" % sorted(need - set(res["slots"])))
@@ -300,7 +302,8 @@ def run(ctx):
                 break
     ctx.cov["rule"] = ("every token string over {a . / \\ NUL F250 F5} up to length %d (%d strings), %d long vectors (255/256/4096/8192/8193 bytes) and %d "
                        "seeded random strings over the extended alphabet, each sent in LOOKUP, CREATE, MKDIR, SYMLINK name, SYMLINK target, MKNOD, REMOVE, "
-                       "RMDIR, RENAME from, RENAME to, LINK and MNT (as is and with a leading '/') through handles at depth 0..2 (also file and symlink "
+                       "RMDIR, RENAME from, RENAME to, LINK and MNT (as is, with a leading '/', and - in the histories whose export is published under "
+                       "a name such as /a, /b/aa or /xxxxx (AbsfsNFS.Export's mountPath) - directly behind that name and behind name + '/') through handles at depth 0..2 (also file and symlink "
                        "handles) after a seeded preceding history, under 4 cache configurations; %d links planted in the backend with every target over "
                        "{a . /} up to length %d read back with READLINK. A (slot, string) pair is non-trivial when the string contains a token other than "
                        "a plain letter; distinct pairs are counted by the harness."
